@@ -98,9 +98,10 @@ func ValidateJWT(
 	}
 
 	httpURI, err := strutil.NormalizeURL(dpopClaims.HTTPURI)
-	auds := []string{ctx.BaseURL() + ctx.Request.RequestURI}
+	// The request URI already contains the endpoint prefix, if any.
+	auds := []string{ctx.Host + ctx.Request.RequestURI}
 	if ctx.MTLSIsEnabled {
-		auds = append(auds, ctx.MTLSBaseURL()+ctx.Request.RequestURI)
+		auds = append(auds, ctx.MTLSHost+ctx.Request.RequestURI)
 	}
 	if err != nil || !slices.Contains(auds, httpURI) {
 		return goidc.NewError(goidc.ErrorCodeInvalidRequest, "invalid htu claim")
